@@ -262,7 +262,9 @@ impl<'ast, 'arena> ProgramFacts<'ast, 'arena> {
         }
         self.locals.push(LocalInfo { name, owner, declaring_scope, decl_span, decl_stmt, kind });
         self.scope_locals[declaring_scope.0 as usize].push(id);
-        function.locals_len += 1;
+        // Ids are handed out in source order, so a nested function's locals can sit
+        // between two locals of its parent. The range has to span all of them.
+        function.locals_len = id.0 - function.locals_start + 1;
         id
     }
 
